@@ -17,6 +17,7 @@ import (
 	"verif/sim/core"
 	"verif/sim/runner"
 
+	_ "verif/engines/osmsim"
 	_ "verif/engines/projh"
 	_ "verif/engines/routeh"
 	_ "verif/engines/rtreeh"
